@@ -275,9 +275,18 @@ def lean_gate(prop: str) -> Dict[str, Any]:
                 audit = c["audit"]
         except Exception:
             audit = None
+    def _store(a):
+        tmp = cache.with_suffix(f".{os.getpid()}.tmp")
+        tmp.write_text(json.dumps({"hash": h, "audit": a}))
+        os.replace(tmp, cache)  # atomic: concurrent checks never read a half-written cache
+
     if audit is None and ok:
         audit = run_audit()
-        cache.write_text(json.dumps({"hash": h, "audit": audit}))
+        _store(audit)
+    if ok and audit is not None and any(t not in audit for t in thms):
+        # an incomplete audit (a concurrent run's cache, a Lean process that was killed under load): once more, fresh
+        audit = run_audit()
+        _store(audit)
     audit = audit or {}
     for t in thms:
         ax = audit.get(t)
